@@ -122,11 +122,22 @@ class DFXPReader(BaseReader):
         default_language = dfxp_document.tt.attrs.get('xml:lang',
                                                       DEFAULT_LANGUAGE_CODE)
 
-        # Each div represents all the captions for a single language.
+        # Each div holds captions of a single language; a language may have
+        # several divs.
         for div in dfxp_document.find_all('div'):
             lang = div.attrs.get('xml:lang', default_language)
 
-            caption_dict[lang] = self._convert_div_to_caption_list(div)
+            if any(parent.name == 'div'
+                   and parent.attrs.get('xml:lang', default_language) == lang
+                   for parent in div.parents):
+                # its captions were read together with the enclosing div's
+                continue
+
+            captions = self._convert_div_to_caption_list(div)
+            if lang in caption_dict:
+                caption_dict[lang].extend(captions)
+            else:
+                caption_dict[lang] = captions
 
         for style in dfxp_document.find_all('style'):
             id_ = style.attrs.get('xml:id') or style.attrs.get('id')
